@@ -8,8 +8,6 @@ import "luahelper-lsp/langserver/check/compiler/lexer"
 
 func c03class(f *rxFeatures, refOK bool, gotErr bool) string {
 	switch {
-	case f.hugeFloat && refOK && gotErr:
-		return "C03-float-range"
 	case f.hexNoDigit && !refOK && !gotErr:
 		return "C03-hex-no-digit"
 	case f.gluedNumeral && !refOK && !gotErr:
